@@ -1161,9 +1161,11 @@ def run(ctx, proofs):
                        "impl": f["impl"], "model": f["model"]}, no_input=True)
     if chain["thm_broken"] or chain["order_dependent"]:
         f = (chain["thm_broken"] or chain["order_dependent"])[0]
-        ctx.violation("the extracted chain contradicts C01_definition_chain_never_panics (hypotheses met, outcome %s) or "
-                      "its outcome depends on the enumeration order of a hash set" % (f.get("model") or f.get("identity_order")),
-                      {"broken": "C01_definition_chain_never_panics vs coq/extract/chain", "first": f}, no_input=True)
+        ctx.violation("the extracted chain contradicts %s (hypotheses met, outcome %s) or its outcome depends on the "
+                      "enumeration order of a hash set" % (f.get("contradicts", "C01_definition_chain_never_panics"),
+                                                           f.get("model") or f.get("identity_order")),
+                      {"broken": "%s vs coq/extract/chain" % f.get("contradicts", "C01_definition_chain_never_panics"),
+                       "first": f}, no_input=True)
     if chain["degenerate"]:
         ctx.violation("the chain stage is degenerate: " + "; ".join(chain["degenerate"]),
                       {"broken": "lib/props/c01chain.py FIXED", "what": chain["degenerate"]}, no_input=True)
@@ -1222,9 +1224,6 @@ def run(ctx, proofs):
                     "rule": "one evaluation = one distinct definition (DEF text) handed to lifting by the real parser + "
                             "desugarer; every occurrence of it is compared with the real outcome class"},
         "open_statements": [
-            "ssa_output_ok (one defining assignment per local in the graph the SSA mirror returns: the second hypothesis of "
-            "C20_propagate_completes) is a hypothesis about the OUTPUT of Model.Ssa.into_ssa, evaluated on every explored "
-            "definition (coverage chain.hypothesis_evaluations), not derived from C14_construction_unique_defs",
             "the LALRPOP parser is a parameter of the chain: a panic inside the generated automaton cannot be expressed in "
             "C01_pipeline_mirrors_never_panic (its semantic actions are covered by the action theorems; the automaton is "
             "exercised by the engine)",
@@ -1236,12 +1235,13 @@ def run(ctx, proofs):
         "C01_pipeline_mirrors_never_panic composes the mirrors of include resolution, desugaring, renaming + lifting + IR lifting "
         "(Model.LiftFull), dominator tree, SSA construction and propagation; the LALRPOP parser is a parameter of the chain (a panic "
         "inside the automaton cannot be expressed in the theorem); its remaining hypotheses per body handed to lifting "
-        "(PipelineMirrors.body_ok: declaration keys after the renaming mirror pairwise different, literals non-negative, the SSA "
-        "output has unique local definitions) are decidable and EVALUATED by the stage `chain` on every definition the real parser + "
+        "(PipelineMirrors.body_ok: declaration keys after the renaming mirror pairwise different, literals non-negative) are "
+        "decidable and EVALUATED by the stage `chain` on every definition the real parser + "
         "desugarer produce for the explored sources (coverage chain.hypothesis_evaluations), together with is_block / "
         "stmt_sugar_free / ast_init_flat / ast_init_ok of the real desugarer's output; wf_template of the parser's output is "
-        "evaluated by C18's engine; ssa_output_ok is a hypothesis about the output of the SSA mirror (C20's second premise), "
-        "evaluated, not derived; the analysis passes and the output stage are not part of the chain and remain premises of "
+        "evaluated by C18's engine; that the SSA output has one defining assignment per local (C20's second premise, formerly "
+        "the hypothesis ssa_output_ok) is proved (C01_chain_ssa_output_unique_local_defs) and still evaluated as a cross-check; "
+        "the analysis passes and the output stage are not part of the chain and remain premises of "
         "C01_pipeline_total; the mirrors are tied to the code by the correspondence runs of their own properties and, by outcome "
         "class per definition, by the stage `chain`",
         "the panic-site scanner is syntactic (regular expressions over the source with test modules removed); "
